@@ -12,7 +12,7 @@ void World::begin_op(const Op *op) {
 	log.clear(); log_marks.clear(); stage = 0; stages.clear(); copy_mismatch.clear();
 	expected_paths.clear(); cancel_at = -1; reporter_calls = 0; max_eof_polls = 0; eof_polls = 0;
 }
-void World::end_op() { cur_op = 0; cur_model = 0; limit_at_read = -1; cancel_at = -1; }
+void World::end_op() { cur_op = 0; cur_model = 0; limit_at_read = -1; cancel_at = -1; ffaults.clear(); /* faults belong to the op that carries them */ }
 
 // ------------------------------------------------------------------ std stream capture
 int real_out_fd = 1;
@@ -238,4 +238,11 @@ extern "C" int __wrap_mpq_ILLfactor(mpq_factor_work *f, int *basis, int *cbeg, i
 extern "C" int sim_setrlimit(int r, const struct rlimit *l) { (void)r; (void)l; return 0; }
 typedef void (*sighandler_fn)(int);
 extern "C" sighandler_fn sim_signal(int s, sighandler_fn h) { (void)s; (void)h; return SIG_DFL; }
-extern "C" void sim_exit(int code) { fflush(NULL); _exit(code); }
+int sim_child_pipe = -1;   // >= 0 in a forked esolver child: where the simulated disk is shipped back at exit
+static void put_all(int fd, const void *p, size_t n) { const char *c = (const char *)p; while (n) { ssize_t w = write(fd, c, n); if (w <= 0) return; c += w; n -= (size_t)w; } }
+extern "C" void sim_child_finish(int code) {
+	fflush(NULL);
+	if (sim_child_pipe >= 0 && W) { for (auto &kv : W->files) { uint32_t pl = (uint32_t)kv.first.size(), dl = (uint32_t)kv.second.size(); put_all(sim_child_pipe, &pl, 4); put_all(sim_child_pipe, kv.first.data(), pl); put_all(sim_child_pipe, &dl, 4); put_all(sim_child_pipe, kv.second.data(), dl); } close(sim_child_pipe); }
+	_exit(code & 0xff);
+}
+extern "C" void sim_exit(int code) { sim_child_finish(code); }
